@@ -12,6 +12,7 @@ CONSTANTS
   Aborts = FALSE
   SendLast = FALSE
   Record = FALSE
+  OnlyBad = FALSE
 INIT Init
 NEXT Next
 INVARIANT Causal
